@@ -318,6 +318,7 @@ func init() {
 
 func progsC05(t *testing.T) {
 	progsArrowContext(t, "C05", []string{"LiftF", "TryF"})
+	progsExtremeArgs(t, "C05")
 	progsPingPong(t, "C05", []string{"Map", "FMap", "Filter", "TakeWhile", "Take", "Partition"})
 	progsHuge(t, "C05")
 	progsSlow(t, "C05")
@@ -631,6 +632,7 @@ func progsC10(t *testing.T) {
 	progsHuge(t, "C10")
 	progsSlow(t, "C10")
 	progsInPlaceMonoid(t, "C10", []int{1, 2, 3, 4, 8, 33})
+	progsFoldMeet(t, "C10")
 	for _, par := range widePars() {
 		for _, mon := range []string{"sum", "prod", "max", "min", "and", "or"} {
 			ns := []int{0, 1, par - 1, par, par + 1, 3*par + 7}
@@ -1556,4 +1558,5 @@ func progsC12Shared(t *testing.T) {
 func progsC07(t *testing.T) {
 	progsGoexit(t, "C07")
 	progsSlowErrors(t, "C07", []string{"Map", "FMap", "Emit"})
+	progsStdErrChain(t, "C07")
 }
